@@ -864,3 +864,29 @@ Example C03_nonvacuous_judge_collection_oracle :
   cview_ok ro obs (final_list (w_c (st_w s))) = true.
 Proof. vm_compute. repeat split; reflexivity. Qed.
 
+(* ... and the updates-only clause of cview_ok (no seed: the fold of the observed changes is right at every id
+   the stream mentions): every id of the stream is the id of a delivered event (no include predicate), so
+   C03_collection_updates_only_converges applies at it *)
+Theorem C03_judge_collection_updates_only_stream_oracle_sound : forall (i : option idf) (prog : list fcall) (sched : list nat)
+        vinit cinit (u : csub fmsg (list fld)) (ro : fro) obs fc,
+  (forall t c, nth_error (map to_call prog) t = Some c -> call_ok (idfun_of i) c) ->
+  sorted str_ltb (c_items (init_c cinit)) ->
+  let s := f_run false i prog sched vinit cinit in
+  all_done s = true -> In u (st_csubs s) -> cs_ro u = to_ropts ro ->
+  r_updates_only ro = true -> r_include ro = None ->
+  list_match cc_matches (cstream_of u) obs = true ->
+  list_eqb kv_eqb (final_list (w_c (st_w s))) fc = true ->
+  cview_ok ro obs fc = true.
+Proof. exact judge_collection_uo_oracle_sound. Qed.
+Print Assumptions C03_judge_collection_updates_only_stream_oracle_sound.
+
+Example C03_nonvacuous_judge_collection_updates_only_oracle :
+  let ro := mkFRO (Some [Fa]) true None in
+  let s := f_run false None [FUpdate "a" (mkF 7 0 0) plain_wo; FSubC ro] [1; 0; 0; 0]%nat None
+                 [("a"%string, mkF 1 5 0, 300); ("b"%string, mkF 2 2 0, 310)] in
+  let obs := [mkOC "a" 1000 2 (Some (mkF 1 0 0)) (Some (mkF 7 0 0)) false false] in
+  all_done s = true /\ st_stutter s = 0%nat /\
+  map (fun u => (list_match cc_matches (cstream_of u) obs, ro_updates_only (cs_ro u))) (st_csubs s) = [(true, true)] /\
+  cview_ok ro obs (final_list (w_c (st_w s))) = true.
+Proof. vm_compute. repeat split; reflexivity. Qed.
+
